@@ -92,6 +92,7 @@ def gen_function(c: Contract, prop: str, bounded=None) -> FunctionReport:
             if k > nloops:
                 raise Stale(f"{c.key}: invariant inv_{k} but the function has only {nloops} loops")
         st = State()
+        st.assume(T.text_len()(T.text_empty()) == 0)
         st.ghost["__globals__"] = _globals_of(fn)
         params = [a.arg for a in node.args.posonlyargs + node.args.args + node.args.kwonlyargs]
         if node.args.vararg is not None:
